@@ -355,7 +355,8 @@ fn do_access(ax: &mut Axecutor, p: &Palette, path: Path, target: u64, counter: u
         Path::ApiRead(32) => unit(call(|| ax.mem_read_32(target + 0x20))),
         Path::ApiRead(64) => unit(call(|| ax.mem_read_64(target + 0x20))),
         Path::ApiRead(128) => unit(call(|| ax.mem_read_128(target + 0x20).map(|v| v as u64))),
-        Path::ApiRead(_) => unit(call(|| ax.mem_read_bytes(target + 0x20, 24).map(|v| v.len() as u64))),
+        // (byte reads of several lengths: short, just over 100, most of the area)
+        Path::ApiRead(_) => unit(call(|| ax.mem_read_bytes(target + 0x20, [24u64, 101, 0xd0][(counter % 3) as usize]).map(|v| v.len() as u64))),
         Path::ApiWrite(8) => call(|| ax.mem_write_8(target + 0x20, val & 0xff)),
         Path::ApiWrite(16) => call(|| ax.mem_write_16(target + 0x20, val & 0xffff)),
         Path::ApiWrite(32) => call(|| ax.mem_write_32(target + 0x20, val & 0xffff_ffff)),
@@ -461,7 +462,17 @@ fn judge(ax: &mut Axecutor, p: &Palette, path: Path, target: u64, mask: u32, cou
 }
 
 fn fresh(p: &Palette) -> Option<Axecutor> {
+    fresh_with(p, 0)
+}
+
+/// `empties`: zero-length areas created BEFORE the test area (they precede it in the area list; one of them may
+/// sit exactly on its start address)
+fn fresh_with(p: &Palette, empties: u64) -> Option<Axecutor> {
     let mut ax = catch(|| Axecutor::new(&p.code, CODE_AT, CODE_AT)).ok()?.ok()?;
+    for i in 0..empties {
+        let at = if i == 1 { T_AT } else { 0x60_0000 + 0x1000 * i };
+        let _ = catch(|| ax.mem_init_zero(at, 0));
+    }
     catch(|| ax.mem_init_area(T_AT, t_contents(p.landing))).ok()?.ok()?;
     equip(&mut ax, T_AT)?;
     Some(ax)
@@ -621,7 +632,7 @@ impl C09 {
     /// masks changed by mem_prot in the middle of a history of accesses
     fn history(&self, k: u64, rng: &mut Rng, col: &mut Collector) {
         let p = palette(CODE_AT);
-        let Some(mut ax) = fresh(&p) else { return };
+        let Some(mut ax) = fresh_with(&p, *rng.pick(&[0u64, 0, 1, 2, 3])) else { return };
         let mut mask = 3u32;
         let n = rng.range(40, 120);
         let mut tail = Vec::new();
